@@ -206,6 +206,15 @@ def cases(rng, tier, shard, nshards):
                 e.update({'points': pts, 'c': c, 'gaps': gaps, 'm': m_, 'e': e_, 'shifted': False, 'layout': 'C',
                           'cls': e['cls'] + ':extremely-unbalanced', 'skip': ['elbow:lmethod']})
                 yield e
+        # long elbows (more than 1000 split candidates) with the corner anywhere: searches that look at a grid of candidates
+        for _ in range(2):
+            tot = int(rng.integers(1010, 1400))
+            la = int(rng.integers(200, tot - 200))
+            j1, j2 = slopes_of(rng, SHAPES[int(rng.integers(0, len(SHAPES)))])
+            e = elbow(rng, la, tot - la, j1, j2)
+            if np.all(np.abs(e['points']) < 2.0 ** 17):
+                e['layout'] = 'C'
+                yield e
         for _ in range(3):
             a = int(rng.integers(48, 64))
             j1, j2 = (a + 1, a) if rng.random() < 0.5 else (-a - 1, -a)
